@@ -98,7 +98,7 @@ RemGen(f) == /\ IF Has(gen, f)
              /\ UNCHANGED <<stack, withs>> /\ Obs /\ UNCHANGED hist
 
 Next == \/ \E c \in Convs : Register(c) \/ Unregister(c) \/ Enter(c)
-        \/ Leave("leave") \/ Leave("leave_exc")
+        \/ Leave("leave") \/ Leave("leave_exc") \/ Leave("leave_base")   \* normally / by an Exception / by a BaseException (GeneratorExit, KeyboardInterrupt ...)
         \/ \E f \in Gens : RegGen(f) \/ RemGen(f)
 \* the initial state has level 1: histories of at most MaxSteps steps
 Bound == TLCGet("level") <= MaxSteps + 1
@@ -109,15 +109,15 @@ TopWins == probe = ProbeOf(stack) /\ gprobe = GProbeOf(gen) /\ xprobe = XProbeOf
 WithsRegistered == Len(withs) <= Len(stack) \/ \E k \in DOMAIN withs : TRUE
 RejectedChangesNothing == [][~out'.ok => (stack' = stack /\ gen' = gen)]_vars
 \* LIFO: a successful unregister / leave removes exactly the most recent registration
-PopOnly == [][(out'.act \in {"unregister", "leave", "leave_exc"} /\ out'.ok)
+PopOnly == [][(out'.act \in {"unregister", "leave", "leave_exc", "leave_base"} /\ out'.ok)
               => (stack # <<>> /\ stack' = Pop(stack) /\ stack[Len(stack)] = out'.c)]_vars
 \* entering and immediately leaving restores the stack (the base case of restoration; longer
 \* nestings follow by induction over PopOnly and are explored as behaviours)
 \* RESTORATION: once every block has been left - normally or by an exception - and the discipline was kept
 \* (whatever was registered directly inside a block was unregistered inside it), the stack, and with it the
 \* behaviour of conversions, is what it was before the outermost block was entered
-Restoration == (withs = <<>> /\ disc /\ out.act \in {"leave", "leave_exc"}) => (stack = base /\ probe = ProbeOf(base))
+Restoration == (withs = <<>> /\ disc /\ out.act \in {"leave", "leave_exc", "leave_base"}) => (stack = base /\ probe = ProbeOf(base))
 \* under the discipline a leave never fails
-DisciplinedLeaveSucceeds == [][(out'.act \in {"leave", "leave_exc"} /\ disc /\ Len(stack) = marks[Len(marks)] + 1) => out'.ok]_vars
+DisciplinedLeaveSucceeds == [][(out'.act \in {"leave", "leave_exc", "leave_base"} /\ disc /\ Len(stack) = marks[Len(marks)] + 1) => out'.ok]_vars
 GenNoDup == \A j, k \in DOMAIN gen : gen[j] = gen[k] => j = k
 =============================================================================
